@@ -199,9 +199,33 @@ def bwt(block):
         return b'', 0
     if block.count(block[0]) == n:
         return bytes(block), 0
-    dbl = block + block
-    idx = sorted(range(n), key=lambda i: dbl[i:i + n])
-    # stable tie-break for periodic strings: any consistent choice is valid
+    dbl = bytes(block) + bytes(block)
+    # sort rotations by a bounded prefix first (memory O(n*K)), then refine
+    # only the groups that are still tied with longer and longer prefixes
+    K = 32
+    idx = sorted(range(n), key=lambda i: dbl[i:i + K])
+    while K < n:
+        out = []
+        j = 0
+        tied = False
+        while j < n:
+            k = j + 1
+            kj = dbl[idx[j]:idx[j] + K]
+            while k < n and dbl[idx[k]:idx[k] + K] == kj:
+                k += 1
+            if k - j > 1:
+                tied = True
+                K2 = min(n, K * 8)
+                grp = sorted(idx[j:k], key=lambda i: dbl[i:i + K2])
+                out.extend(grp)
+            else:
+                out.append(idx[j])
+            j = k
+        idx = out
+        if not tied:
+            break
+        K = min(n, K * 8)
+    # ties that remain (periodic strings): any consistent choice is valid
     last = bytes(dbl[i + n - 1] for i in idx)
     return last, idx.index(0)
 
@@ -653,6 +677,7 @@ def strict_decode(data, want_info=False, full=True):
     r = BitReader(data)
     out = bytearray()
     infos = []
+    eos_bits = []
     nstreams = 0
     while True:
         if nstreams > 0:
@@ -680,6 +705,7 @@ def strict_decode(data, want_info=False, full=True):
                     out += plain
                 cc = combine(cc, crc)
             elif m == EOS_MAGIC:
+                eos_bits.append(r.pos - 48)
                 if r.get(32) != cc:
                     raise Reject('strmcrc')
                 break
@@ -688,7 +714,8 @@ def strict_decode(data, want_info=False, full=True):
         r.pos = (r.pos + 7) // 8 * 8
         nstreams += 1
     if want_info:
-        return bytes(out), infos, {'streams': nstreams, 'end_byte': r.pos // 8}
+        return bytes(out), infos, {'streams': nstreams, 'end_byte': r.pos // 8,
+                                   'eos_bits': eos_bits}
     return bytes(out)
 
 
